@@ -8,6 +8,7 @@
     q <kind> args…         query on the current circuit → prints `<kind> <answer>`
 -/
 import DdnnfVerif.Model.Dispatch
+import DdnnfVerif.Model.ClauseCache
 open Ddnnf
 
 structure St where
@@ -15,9 +16,30 @@ structure St where
   building : Array NType := #[]
   nodes : List NType := []
   cursor : Cursor := []
+  cc : CC.Cache := {}
 
 def parseInts (ws : List String) : List Int := ws.filterMap String.toInt?
 def parseNats (ws : List String) : List Nat := ws.filterMap String.toNat?
+
+/-- split a token list at the `|` tokens -/
+def splitBars (ws : List String) : List (List String) :=
+  ws.foldr (fun w acc => if w == "|" then [] :: acc else match acc with
+    | cur :: rest => (w :: cur) :: rest
+    | [] => [[w]]) [[]]
+/-- `1 -2 / 3` : clauses separated by `/` -/
+def parseClauses (ws : List String) : List (List Int) :=
+  (ws.foldr (fun w acc => if w == "/" then [] :: acc else match acc with
+    | cur :: rest => (w :: cur) :: rest
+    | [] => [[w]]) [[]]).filterMap fun c => if c.isEmpty then none else some (c.filterMap String.toInt?)
+def parseState (ws : List String) : Nat × List (List Int) :=
+  let parts := splitBars ws
+  (((parts.getD 0 []).headD "0").toNat?.getD 0, parseClauses (parts.getD 1 []))
+def fmtVerdict : CC.Verdict → String
+  | .ok => "ok" | .conflict => "conflict" | .boundary => "boundary" | .rejected => "rejected"
+def fmtSaved (c : CC.Cache) : String :=
+  let (n, cs) := CC.saved c
+  let body := " / ".intercalate (cs.map fun cl => " ".intercalate (cl.map toString))
+  (toString n ++ " | " ++ body).trimAscii.toString
 
 def step (st : St) (line : String) : St × Option String :=
   match (line.trimAscii.toString.splitOn " ").filter (· ≠ "") with
@@ -49,6 +71,19 @@ def step (st : St) (line : String) : St × Option String :=
         | .err c (some t) => if norm t == impl then "agree" else s!"DISAGREE model={t}"
         | .err c none => if impl.startsWith s!"E{c} " then "agree" else s!"DISAGREE model=E{c} ?"
       ({ st with cursor := cur }, some ("msg " ++ verdict))
+  | "q" :: "ccinit" :: rest =>
+      -- `q ccinit n | c1 / c2 / ..`
+      let (n, cs) := parseState rest
+      ({ st with cc := CC.init cs n }, some "ccinit ok")
+  | "q" :: "ccupdate" :: rest =>
+      -- `q ccupdate t | add clauses | rmv clauses`   (t = `-` when absent)
+      let parts := splitBars rest
+      let t := ((parts.getD 0 []).headD "-").toNat?
+      let (c', v) := CC.update st.cc t (parseClauses (parts.getD 1 [])) (parseClauses (parts.getD 2 []))
+      ({ st with cc := c' }, some ("ccupdate " ++ fmtVerdict v ++ " " ++ fmtSaved c'))
+  | ["q", "ccundo"] =>
+      let (c', v) := CC.undo st.cc
+      ({ st with cc := c' }, some ("ccundo " ++ fmtVerdict v ++ " " ++ fmtSaved c'))
   | ["q", "enumreset"] => ({ st with cursor := [] }, some "enumreset ok")
   | "q" :: kind :: args => (st, some (kind ++ " " ++ answer st.nodes st.n kind args))
   | [] => (st, none)
